@@ -28,7 +28,7 @@ ASSUMPTIONS = [
     "chain, only termination without error is required",
 ]
 OBLIGATIONS = {"acyclic": 300, "cyclic": 100, "field:default": 100,
-               "field:negatives": 100, "field:zeros": 50, "has-upstream": 200,
+               "field:negatives": 100, "field:zeros": 50, "field:reachable-nodata": 50, "has-upstream": 200,
                "terminal-cell": 200, "reduced-max": 20, "random-forest": 5,
                "inputs-unaltered": 300, "dtype-variant": 100}
 
@@ -69,6 +69,9 @@ def fields_for(rng, nr, nc):
     f = rng.integers(-8, 9, size=(nr, nc)) / 2.0
     f[rng.random((nr, nc)) < 0.3] = 0.0
     out.append(("negatives", f, 12345.5))
+    # no-data values that partial sums can hit exactly (the Grid default 0, -1)
+    f2 = rng.integers(-4, 5, size=(nr, nc)) / 1.0
+    out.append(("reachable-nodata", f2, [0.0, -1.0, 2.0][int(rng.integers(0, 3))]))
     return out
 
 
@@ -165,7 +168,7 @@ def run(ctx):
             model_cyc = FlowGraph(codes.tolist()).has_cycle()
             flds = fields_for(rng, nr, nc)
             if model_cyc:
-                flds = flds[:1] + flds[3:]
+                flds = flds[:1] + flds[3:4]
             for nm, f, nd in flds:
                 case = {"kind": "acc", "codes": codes.tolist(),
                         "field": None if f is None else f.tolist(), "nodata": nd,
